@@ -178,6 +178,23 @@ class C10(Spec):
                 tab.add(m, res, hid)
                 added.append((m, res))
                 ops.append("+%d:%s:%d" % (m, pv.hexs(res), hid))
+            # removal of a route below a node that carries its own route: the node must survive
+            if rng.random() < 0.6:
+                m = rng.choice(methods)
+                base = "/" + "/".join(rng.choice("abc") for _ in range(rng.randint(1, 2)))
+                chain = [base]
+                for d in range(rng.randint(1, 2)):
+                    chain.append(chain[-1] + "/" + rng.choice(["a", "b", ":q%d" % d, ":r%d?" % d, "*"]))
+                okc = []
+                for res in chain:
+                    hid += 1
+                    if tab.add(m, res, hid):
+                        ops.append("+%d:%s:%d" % (m, pv.hexs(res), hid))
+                        okc.append(res)
+                if len(okc) >= 2:
+                    victim = okc[-1]
+                    if tab.remove(m, victim):
+                        ops.append("-%d:%s" % (m, pv.hexs(victim)))
             qs = []
             paths = rng.sample(allpaths, min(nq, len(allpaths)))
             for p in paths:
